@@ -339,7 +339,7 @@ class Cache:
 FAULTS = ["err_big", "trunc_err", "trunc_close", "timeout", "close_now", "bad_len_small", "bad_len_big", "bad_len_type", "bad_type",
           "bad_version", "bad_flags", "dup_announce", "unknown_withdraw", "eod_session", "cr_session", "spurious_reset",
           "err_nodata", "err_unsupported_ver", "err_other", "unexpected_pdu", "prefix_len_big", "notify_inside", "garbage",
-          "announce_withdraw_same", "eod_v0_in_v1", "stop", "downgrade_error", "intr_before"]
+          "announce_withdraw_same", "eod_v0_in_v1", "stop", "downgrade_error", "intr_before", "trunc_intr"]
 
 
 def client_waiting(trace_lines):
@@ -493,6 +493,11 @@ def build_conversation(rnd, nex=6, fault_p=0.45, cfg=None, chunking=None, faults
             deliver(b)
         elif f == "trunc_err":
             deliver(b[:rnd.randint(0, max(0, len(b) - 1))]); s.err(1)
+        elif f == "trunc_intr":
+            # the receive call is interrupted (TR_INTR) in the middle of the answer: at a PDU boundary after the Cache Response,
+            # or inside a PDU; the rest of the answer follows (the client has given the exchange up by then)
+            cut = len(pdus[0]) + sum(len(x) for x in pdus[1:rnd.randint(1, max(1, len(pdus) - 1))]) if rnd.random() < 0.6 else rnd.randint(1, max(1, len(b) - 1))
+            deliver(b[:cut]); s.err(3); deliver(b[cut:])
         elif f == "trunc_close":
             deliver(b[:rnd.randint(0, max(0, len(b) - 1))]); s.err(4)
         elif f == "timeout":
